@@ -203,8 +203,15 @@ def build(reg):
     opts = [o for ld in LOADERS for o in BY_LOADER[ld]]
     unchanged = " and ".join(f"self.{o} == old(self.{o})" for o in OPTIONS)
     anyp = "(present0 or present1 or present2 or present3)"
-    good = f"({anyp} and fs_readable and parse_ok and is_dict(parsed))"
-    wt = " and ".join(f"implies('{o}' in parsed, iterable(parsed['{o}']))" for o in sorted(SET_OPTIONS))
+    good = f"({anyp} and fs_readable and parse_ok and is_dict(parsed) and types_ok)"
+    # types_ok: the verdict of _check_config_types on the parsed object; for the set-valued options it means a list of
+    # strings, in particular an iterable value (the rest of what it means is checked natively on typed/mistyped files)
+    wt = " and ".join(f"implies(types_ok and '{o}' in parsed, iterable(parsed['{o}']))" for o in sorted(SET_OPTIONS))
+
+    def check_types(eng, st, node, args, kwargs):
+        eng.may_raise(st, st.env["types_ok"].t, "ValueError", "self._check_config_types(config_dict)")
+        return NoneV()
+    check_types.modifies = []
     ens = [("no_config_silent", f"implies(not {anyp}, self.msgs == old(self.msgs) and {unchanged})"),
            ("bad_file_message", f"implies({anyp} and not {good}, self.msgs == old(self.msgs) + 1)"),
            ("bad_file_unchanged", f"implies({anyp} and not {good}, {unchanged})"),
@@ -215,14 +222,14 @@ def build(reg):
         ens.append((n, f"implies({good}, {cl})"))
     reg.add(Contract(
         f"{LS}._load_config_file", prop="C19", receiver_cls="LangServer",
-        params={"fs_readable": BOOL, "fs_vanished": BOOL, "parse_ok": BOOL, "parsed": JSON,
+        params={"fs_readable": BOOL, "fs_vanished": BOOL, "parse_ok": BOOL, "parsed": JSON, "types_ok": BOOL,
                 "present0": BOOL, "present1": BOOL, "present2": BOOL, "present3": BOOL}, fields=fields,
         requires=[("wt_sets", wt)] + [(f"inv.is_set[{o}]", f"is_set(self.{o})") for o in sorted(SET_OPTIONS)]
         + [("inv.pp_defs_dict", "not is_list(self.pp_defs)")],
         ensures=ens,
         modifies=[f"self.{o}" for o in OPTIONS] + ["self.sync_type", "self.FORTRAN_SRC_EXT_REGEX", "self.msgs"],
         calls={"os.path.isfile": isfile, "os.path.join": join, "open": open_, "json5.load": json5_load,
-               "self.post_message": post_message,
+               "self.post_message": post_message, "self._check_config_types": check_types,
                **{f"self.{ld}": f"{LS}.{ld}" for ld in LOADERS}},
         short="LangServer._load_config_file"))
     return reg
@@ -237,9 +244,9 @@ TRUSTED = [
     "another OSError, json5.load raises ValueError or returns any JSON value",
     "create_src_file_exts_str only frame-checked here (its regex is C18's business)",
 ]
-ASSUMPTIONS = ["set-valued options given in the file are iterable JSON values (lists); other wrong value types are "
-               "accepted unvalidated by fortls and are reported as a known finding, see known_findings.txt"]
-RESIDUAL = "effects of option use downstream (C18/C08/C12); value-type validation of scalar options"
+ASSUMPTIONS = ["types_ok is the verdict of _check_config_types; that it accepts exactly the well-typed files is checked natively "
+               "on a table of typed and mistyped values per option (bounded)"]
+RESIDUAL = "effects of option use downstream (C18/C08/C12); the type table of _check_config_types itself"
 
 
 def extra(repo, reg, tier, seed):
@@ -391,7 +398,10 @@ def extra(repo, reg, tier, seed):  # noqa: F811
     # wrong value types (bounded, native): the contracts above assume set-valued options are iterable and do
     # not constrain scalar types; the property also covers those files, so they are run against the real server
     from replay.harness import Workspace, session, default_settings
-    bad_cfgs = ['{"excl_paths": 5}', '{"nthreads": "four"}', '{"incl_suffixes": 1.5}']
+    bad_cfgs = ['{"excl_paths": 5}', '{"nthreads": "four"}', '{"incl_suffixes": 1.5}', '{"include_dirs": null}', '{"nthreads": 0}',
+                '{"recursion_limit": "a"}', '{"source_dirs": "src"}', '{"pp_defs": "FOO"}', '{"pp_defs": 3}', '{"hover_language": 3}',
+                '{"pp_suffixes": 3}', '{"debug_log": "yes"}', '{"max_line_length": true}', '{"excl_suffixes": [1, 2]}',
+                '{"nthreads": 2, "hover_language": "f08", "symbol_skip_mem": 1}']
     fails = []
     for cfg in bad_cfgs:
         ws = Workspace({".fortlsrc": cfg, "a.f90": "program p\nend program p\n"})
@@ -408,8 +418,38 @@ def extra(repo, reg, tier, seed):  # noqa: F811
                               "error": (init[0].get("error", {}).get("message") if init else None)})
             elif not msgs:
                 fails.append({"config": cfg, "problem": "no user-visible message"})
+            else:
+                cli = default_settings([])
+                changed = {k: (cli[k], getattr(srv, k)) for k in cli if k in OPTIONS and k not in ("source_dirs", "excl_paths", "include_dirs")
+                           and getattr(srv, k) != cli[k]}
+                if changed:
+                    fails.append({"config": cfg, "problem": "options changed although the file is rejected", "changed (cli, server)": changed})
         finally:
             ws.close()
+    # and a well-typed file with every option is accepted without a message
+    good_cfg = {"excl_paths": ["x"], "source_dirs": ["."], "incl_suffixes": [".inc"], "excl_suffixes": ["_g.f90"], "include_dirs": ["inc"],
+                "pp_suffixes": [".F90"], "pp_defs": {"A": "1"}, "nthreads": 2, "recursion_limit": 2000, "max_line_length": 100,
+                "max_comment_line_length": 120, "notify_init": True, "incremental_sync": True, "sort_keywords": False,
+                "disable_autoupdate": True, "autocomplete_no_prefix": True, "autocomplete_no_snippets": True,
+                "autocomplete_name_only": True, "lowercase_intrinsics": True, "use_signature_help": True, "hover_signature": True,
+                "disable_diagnostics": True, "symbol_skip_mem": True, "enable_code_actions": True, "hover_language": "f08",
+                "debug_log": False}
+    import json as _json
+    import sys as _sys
+    _limit = _sys.getrecursionlimit()
+    for cfg in (good_cfg, {"pp_defs": ["A", "B"]}):
+        ws = Workspace({".fortlsrc": _json.dumps(cfg), "a.f90": "program p\nend program p\n"})
+        try:
+            srv, out = session(ws, [], keep_threads=True)
+            msgs = [m for m in out if m.get("method") == "window/showMessage" and "onfiguration" in str(m)]
+            wrong = {k: (v, getattr(srv, k)) for k, v in cfg.items()
+                     if k not in ("excl_paths", "source_dirs", "include_dirs", "incl_suffixes", "excl_suffixes", "pp_defs")
+                     and getattr(srv, k) != v}
+            if msgs or wrong:
+                fails.append({"config": cfg, "problem": "a well-typed file is rejected or not applied", "messages": msgs[:1], "wrong": wrong})
+        finally:
+            ws.close()
+            _sys.setrecursionlimit(_limit)
     name = "C19/LangServer._load_config_file/ensures.wrong_value_types"
     if fails:
         items.append(Item(name, "refuted", "native-run(bounded)", 0.0, mode="bounded",
